@@ -93,15 +93,20 @@ type replayCase struct {
 	Entry  string   `json:"entry,omitempty"` // load | model | cli
 }
 
-// check loads one case in the shard's scratch directory and applies the return-value monitors.
+// check materialises one case in the shard's scratch directory and judges the load.
 func check(s *core.Shard, c *ld.Case, ex expect, sink func(map[string]string, string, map[string]any)) ld.Result {
-	if sink == nil {
-		sink = s.Violation
-	}
 	dir := s.Scratch()
 	if err := ld.Materialise(dir, c); err != nil {
 		s.Inconclusive("materialise: " + err.Error())
 		return ld.Result{}
+	}
+	return judge(s, dir, c, ex, sink)
+}
+
+// judge loads an already materialised case and applies the return-value monitors.
+func judge(s *core.Shard, dir string, c *ld.Case, ex expect, sink func(map[string]string, string, map[string]any)) ld.Result {
+	if sink == nil {
+		sink = s.Violation
 	}
 	r := ld.Load(dir, c)
 	s.Eval(1)
@@ -131,7 +136,7 @@ func check(s *core.Shard, c *ld.Case, ex expect, sink func(map[string]string, st
 	}
 	if len(ex.MustName) > 0 {
 		if r.Err == nil {
-			sink(map[string]string{"kind": "missing-file-ignored", "why": ex.Why}, fmt.Sprintf("load succeeded although %v is missing/unreadable (%s)", ex.MustName, ex.Why), files)
+			sink(map[string]string{"kind": "missing-file-ignored", "why": faultClass(ex.Why)}, fmt.Sprintf("load succeeded although %v is missing/unreadable (%s)", ex.MustName, ex.Why), files)
 		} else {
 			named := false
 			for _, n := range ex.MustName {
@@ -140,12 +145,12 @@ func check(s *core.Shard, c *ld.Case, ex expect, sink func(map[string]string, st
 				}
 			}
 			if !named {
-				sink(map[string]string{"kind": "missing-file-not-named", "why": ex.Why}, fmt.Sprintf("error %q names none of the missing files %v (%s)", r.Err.Error(), ex.MustName, ex.Why), files)
+				sink(map[string]string{"kind": "missing-file-not-named", "why": faultClass(ex.Why)}, fmt.Sprintf("error %q names none of the missing files %v (%s)", r.Err.Error(), ex.MustName, ex.Why), files)
 			}
 		}
 	}
 	if ex.MustLoad && r.Err != nil {
-		sink(map[string]string{"kind": "optional-file-fatal", "why": ex.Why}, fmt.Sprintf("load failed (%v) although only optional files are missing (%s)", r.Err, ex.Why), files)
+		sink(map[string]string{"kind": "optional-file-fatal", "why": faultClass(ex.Why)}, fmt.Sprintf("load failed (%v) although only optional files are missing (%s)", r.Err, ex.Why), files)
 	}
 	return r
 }
@@ -179,7 +184,7 @@ func replay(s *core.Shard, dir string) {
 	}
 	if os.Getenv("VERIF_KEEP_SCRATCH") != "" {
 		// fault-injection child: the parent materialised the project under <work>/cur
-		checkLoaded(s, filepath.Join(s.Work, "cur"), rc.Case, rc.Expect)
+		judge(s, filepath.Join(s.Work, "cur"), rc.Case, rc.Expect, nil)
 		return
 	}
 	check(s, rc.Case, rc.Expect, nil)
